@@ -6,14 +6,21 @@ r = json.load(open(os.path.join(V, "selftest", "seeded_results.json")))
 out = ["# Seeded defects and the checks that report them", "",
        "Each seed was written by a sub-agent that saw only one property's text and a scratch worktree (nothing from /verif), and was",
        "re-confirmed by `selftest/confirm_seed.sh` (demo passes on the pristine tree; with the patch: builds, 59/59 tests pass, demo fails).",
-       "Produced by `selftest/seeded.py run --official` (patch applied to /repo with `git apply`, every registered quick check run,",
-       "`git checkout -- .` afterwards) and `tools/gen_seed_table.py`.", "",
-       "| seed | breaks | change | needs, to manifest | own check | first key of the own check | other checks that fire |", "|---|---|---|---|---|---|---|"]
+       "Columns `own check` / `other checks`: `selftest/seeded.py run --props all --jobs=N` (patch applied to a scratch copy of /repo's working",
+       "tree, every registered quick check run against it).  Column `official`: `selftest/seeded.py run --props own --official` -- the patch",
+       "applied to /repo itself with `git -C /repo apply`, the registered quick check of the seed's own property run exactly as registered,",
+       "`git -C /repo checkout -- .` afterwards (selftest/seeded_results_official.json).  Table by `tools/gen_seed_table.py`.", "",
+       "| seed | breaks | change | needs, to manifest | own check | official | first key of the own check | other checks that fire |", "|---|---|---|---|---|---|---|---|"]
+off = {}
+try:
+    off = json.load(open(os.path.join(V, "selftest", "seeded_results_official.json")))
+except Exception:
+    pass
 n = own = anyc = 0
 for sid in sorted(r):
     v = r[sid]
     if "error" in v:
-        out.append(f"| {sid} | | patch no longer applies to the repaired tree | | | | |")
+        out.append(f"| {sid} | | patch no longer applies to the repaired tree | | | | | |")
         continue
     meta = json.load(open(os.path.join(V, "seeded", sid, "meta.json")))
     fired = v["fired"]
@@ -24,7 +31,7 @@ for sid in sorted(r):
     key = (fired.get(o) or [""])[0]
     key = key.split(" key=")[-1][:80] if key else ""
     esc = lambda s: str(s).replace("|", "/").replace("\n", " ")
-    out.append(f"| {sid} | {o} | {esc(meta.get('summary',''))[:160]} | {esc(meta.get('needs_to_manifest',''))[:120]} | {'fires' if o in fired else 'silent'} | `{esc(key)}` | {' '.join(p for p in fired if p != o)} |")
+    out.append(f"| {sid} | {o} | {esc(meta.get('summary',''))[:160]} | {esc(meta.get('needs_to_manifest',''))[:120]} | {'fires' if o in fired else 'silent'} | {('fires' if off.get(sid, {}).get('caught_by_own_check') else 'silent') if sid in off else '-'} | `{esc(key)}` | {' '.join(p for p in fired if p != o)} |")
 out.insert(7, f"**{n} seeds evaluated: {own} reported by the check of the property they were written against, {anyc} reported by at least one check.**\n")
 open(os.path.join(V, "seeded", "RESULTS.md"), "w").write("\n".join(out) + "\n")
 print(n, own, anyc)
